@@ -85,8 +85,9 @@ def step (d : DSt) : List String → DSt × List String
     let (s', r) := opAck d.s ch (seq.toNat?.getD 0)
     let d' := { d with s := s' }
     (d', showState d' r)
-  | "timeout" :: ch :: seq :: _ =>
-    let (s', r) := opTimeout d.s ch (seq.toNat?.getD 0)
+  | "timeout" :: ch :: seq :: rest =>
+    let (s', r) := if (kv rest "send") = some "fail" then opTimeoutNoSend d.s ch (seq.toNat?.getD 0)
+                   else opTimeout d.s ch (seq.toNat?.getD 0)
     let d' := { d with s := s' }
     (d', showState d' r)
   | _ => (d, ["bad-op"])
